@@ -19,7 +19,8 @@ import sys
 sys.path.insert(0, os.path.dirname(os.path.abspath(__file__)))
 from rs2v.driver import translate, TranslateError   # noqa: E402
 from rs2v.rparser import parse_file, find_items, ParseError, type_name   # noqa: E402
-from rs2v.lexer import LexError   # noqa: E402
+from rs2v.lexer import LexError, tokenize   # noqa: E402
+from rs2v.emit import EmitError   # noqa: E402
 
 U8, U32, USZ = ("int", "u8"), ("int", "u32"), ("int", "usize")
 RGB, A256, PAL = ("struct", "RgbColor"), ("struct", "Ansi256Color"), ("struct", "Palette")
@@ -30,10 +31,61 @@ ANSI_NAMES = ["Black", "Red", "Green", "Yellow", "Blue", "Magenta", "Cyan", "Whi
 
 
 def f_self_ctor(em, e, env, k):
-    """`Self(x)` inside `impl Ansi256Color`"""
+    """`Self(x)` inside `impl Ansi256Color` / `impl .. for Palette`"""
+    if em.self_struct == "Palette" and len(e.args) == 1:
+        def k1(t, ty, env1):
+            if ty != ("list", RGB):
+                raise EmitError("Palette(..) of a %r" % (ty,))
+            return k("(pal_new %s)" % t, PAL, env1)
+        return em.expr(e.args[0], env, k1)
     if em.self_struct != "Ansi256Color" or len(e.args) != 1:
-        raise TranslateError("Self(..) outside impl Ansi256Color")
+        raise TranslateError("Self(..) outside impl Ansi256Color / Palette")
     return em.expr(e.args[0], env, lambda t, _ty, env1: k("(a256_new %s)" % t, A256, env1), expect=U8)
+
+
+# the shipped palettes are data (tools/gen_palette.py -> Generated/Palette.v)
+PALETTES = {"VGA": "vga", "WIN10_CONSOLE": "win10_console"}
+CFG_WINDOWS = {"#[cfg(windows)]": True, "#[cfg(not(windows))]": False}
+
+
+def default_alias(src, windows):
+    """`#[cfg(not(windows))] pub use VGA as DEFAULT;` / `#[cfg(windows)] pub use WIN10_CONSOLE as DEFAULT;`:
+    rs2v skips `use` items, so the alias compiled in for the configuration (`cfg_static: windows`) is read off the
+    token stream.  -> the Coq name of the palette that `DEFAULT` names"""
+    try:
+        toks = [t for t in tokenize(src) if t.kind != "eof"]
+    except LexError as e:
+        raise TranslateError("palette.rs: %s" % e)
+    active = []
+    depth = 0
+    for i, t in enumerate(toks):
+        if t.kind == "punct" and t.text in "{}":
+            depth += 1 if t.text == "{" else -1
+        if depth or t.kind != "ident" or t.text != "DEFAULT":
+            continue
+        # an item-level mention of DEFAULT: `[attrs] [pub] use <palette> as DEFAULT ;`
+        if not (i >= 3 and toks[i - 3].text == "use" and toks[i - 2].kind == "ident" and toks[i - 1].text == "as"
+                and i + 1 < len(toks) and toks[i + 1].text == ";"):
+            raise TranslateError("DEFAULT is defined by something else than `use <palette> as DEFAULT;`")
+        name = toks[i - 2].text
+        if name not in PALETTES:
+            raise TranslateError("`use %s as DEFAULT`: not one of the shipped palettes %s" % (name, sorted(PALETTES)))
+        j = i - 4
+        if j >= 0 and toks[j].text == "pub":
+            j -= 1
+        on = True
+        while j >= 0 and toks[j].kind == "attr":
+            a = "".join(toks[j].text.split())
+            if a.startswith("#[cfg"):
+                if a not in CFG_WINDOWS:
+                    raise TranslateError("`use %s as DEFAULT` under %s: only cfg(windows) / cfg(not(windows)) are modelled" % (name, a))
+                on = on and CFG_WINDOWS[a] == windows
+            j -= 1
+        if on:
+            active.append(name)
+    if len(active) != 1:
+        raise TranslateError("DEFAULT: %d aliases compiled in for windows=%s %r" % (len(active), windows, active))
+    return PALETTES[active[0]]
 
 
 VOCAB = {
@@ -53,7 +105,10 @@ VOCAB = {
         "Palette": {"coq": "(list rgb)", "var": "p", "fields": {"0": ("pal_f0", None, ("list", RGB))}},
     },
     "type_alias": {"Rgb": RGB, "RawPalette": ("list", RGB)},
-    "consts": {"XTERM_COLORS": ("xterm_colors", ("list", RGB))},
+    # the non-Windows configuration (as in the choice area): decides which `use .. as DEFAULT` is compiled in
+    "cfg_static": {"windows": False},
+    "consts": {"XTERM_COLORS": ("xterm_colors", ("list", RGB)),
+               "VGA": ("vga", PAL), "WIN10_CONSOLE": ("win10_console", PAL)},
     "fns": {
         "Ansi256Color": {"coq": "a256_new", "self": None, "params": [("in", U8)], "ret": A256, "total": True, "cfg": False},
         "Self": f_self_ctor,
@@ -105,6 +160,7 @@ def register(generators, gm):
 
             def voc(*checked, **kw):
                 v = dict(VOCAB)
+                v["consts"] = dict(VOCAB["consts"], DEFAULT=(default_alias(pal, VOCAB["cfg_static"]["windows"]), PAL))
                 v["structs"] = {n: dict(s, check=(n in checked)) for n, s in VOCAB["structs"].items()}
                 # private helpers of the crate may live in the other file (`crate::helper(..)` called from
                 # palette.rs, defined in lib.rs): that file is searched too when a call is inlined
@@ -128,6 +184,8 @@ def register(generators, gm):
                 ("rgb_from_ansi", "Palette", "g_rgb_from_ansi", {}),
                 ("rgb_from_index", "Palette", "g_rgb_from_index", {}),
                 ("find_match", "Palette", "g_find_match", {}),
+                ("default", "Palette", "g_palette_default", {"trait": "Default"}),
+                ("from", "Palette", "g_palette_from", {"trait": "From"}),
             ], "", "", shapes))
             out.append(translate(lib, voc(helpers=[pal]), [
                 ("find_xterm_match", None, "g_find_xterm_match", {}),
